@@ -9,6 +9,11 @@ for sid in sorted(os.listdir(os.path.join(V, 'seeded'))):
         continue
     meta = json.load(open(os.path.join(d, 'meta.json')))
     res = json.load(open(os.path.join(d, 'result.json'))) if os.path.exists(os.path.join(d, 'result.json')) else {}
+    rt = os.path.join(d, 'result_thorough.json')
+    if not res.get('caught') and os.path.exists(rt) and json.load(open(rt)).get('caught'):
+        quick_exit = res.get('exit')
+        res = json.load(open(rt))
+        res['tier'] = 'thorough; quick tier: exit %s' % quick_exit
     units = sorted({l.split('replay/')[-1].split('.json')[0].split('-', 1)[-1] for l in res.get('violation_lines', [])})
     fo = res.get('failed_obligations', [])
     first = fo[0].split('  ', 1)[-1][:110] if fo else ''
@@ -24,6 +29,16 @@ out = ['# Seeded breaking changes and the checks that catch them', '',
 for r in rows:
     out.append('| ' + ' | '.join(r) + ' |')
 n = len(rows); c = sum(1 for r in rows if r[4].startswith('caught'))
-out += ['', '%d of %d seeded changes are reported as VIOLATION by the registered checks.' % (c, n)]
+out += ['', '%d of %d seeded changes are reported as VIOLATION by the registered checks.' % (c, n), '']
+waves = {'s': 'wave 1 (`-sN`)', 't': 'wave 2 (`-tN`)', 'u': 'wave 3 (`-uN`, asked for restructuring changes)'}
+for k, name in waves.items():
+    rs = [r for r in rows if r[0].split('-')[1][0] == k]
+    if rs:
+        q = sum(1 for r in rs if r[4].startswith('caught (quick'))
+        t = sum(1 for r in rs if r[4].startswith('caught (thorough'))
+        e2 = [r[0] for r in rs if r[4] == 'exit 2']
+        e0 = [r[0] for r in rs if r[4] == 'exit 0']
+        out.append('* %s: %d changes, %d caught in the quick tier, %d only in the thorough tier, undecided (exit 2): %s, missed (exit 0): %s' % (
+            name, len(rs), q, t, ', '.join(e2) or 'none', ', '.join(e0) or 'none'))
 open(os.path.join(V, 'seeded', 'REPORT.md'), 'w').write('\n'.join(out) + '\n')
 print('%d/%d caught' % (c, n))
